@@ -2,10 +2,12 @@ import sys
 from .core import main
 
 MODULES = {
+    "C01": "props.c01",
     "C02": "props.c02",
     "C03": "props.c03",
     "C04": "props.c04",
     "C05": "props.c05",
+    "C06": "props.c06",
     "C09": "props.c09",
     "C11": "props.c11",
     "C15": "props.c15",
